@@ -74,6 +74,9 @@ MUTANTS = {
         ('timeout_comparison_flipped', r'\+ Duration::from_secs\(client\.timeout_seconds as u64\) < self\.current_time\)', '+ Duration::from_secs(client.timeout_seconds as u64) > self.current_time)'),
         ('mac_match_last_wins_address_ignored', r'return entry\.address == new_entry\.address;', 'return true;'),
         ('pending_expiry_off_by_one', r'current_time\.as_secs\(\) > client\.expire_timestamp', 'current_time.as_secs() >= client.expire_timestamp'),
+        ('pending_receive_time_not_refreshed', r'(Some\(&mut pending\.replay_protection\),\s+\)\?;\s+)pending\.last_packet_received_time = self\.current_time;', r'\1'),
+        ('connected_receive_time_not_refreshed', r'client\.last_packet_received_time = self\.current_time;', ''),
+        ('session_decoded_without_replay_window', r'Some\(&client\.receive_key\),\s+Some\(&mut client\.replay_protection\),', 'Some(&client.receive_key), None,'),
         ('payload_counter_not_advanced', r'(Some\(\(client\.sequence, &client\.send_key\)\)\)\?;\s+)client\.sequence \+= 1;', r'\1'),
     ],
     'U18': [
